@@ -1,8 +1,8 @@
 (* Proofs/WmdIO.v — C09: a written matching file is parsed back to the same content (Model/WmdIO.v).
    Spec definitions (well-formedness, the re-parsed instance) + the lemmas; the theorems are restated in
    Properties/C09.v.  Uses the shared header lemmas of Proofs/Meta.v (owned by the C01 package). *)
-From Coq Require Import List NArith Bool String Lia Permutation Sorted.
-From PrefVerif Require Import Lib.Val Lib.Dec Lib.PyStr Model.Meta Model.WmdIO.
+From Coq Require Import List NArith ZArith Bool String Lia Permutation Sorted.
+From PrefVerif Require Import Lib.Val Lib.Dec Lib.DecZ Lib.PyStr Model.Meta Model.WmdIO.
 From PrefVerif Require Import Proofs.Meta Proofs.WmdSort Proofs.WmdGraph.
 Import ListNotations.
 
@@ -46,6 +46,24 @@ Proof. intros H. eapply forallb_impl; [exact H|apply show_N_digits]. Qed.
 
 Lemma show_N_no_break n : no_break (show_N n) = true.
 Proof. apply show_N_all. intros c H. apply (digit_facts c H). Qed.
+
+(* node ids are printed with digits and "-" *)
+Lemma idchar_facts c : idchar c = true ->
+  negb (is_space c) = true /\ negb (N.eqb c 32) = true /\ negb (N.eqb c 44) = true /\ negb (is_linebreak c) = true
+  /\ negb (N.eqb c 35) = true.
+Proof.
+  unfold idchar. intros H. apply orb_true_iff in H as [H|H]; [now apply digit_facts|].
+  apply N.eqb_eq in H. subst c. repeat split; reflexivity.
+Qed.
+
+Lemma show_Z_no_break z : no_break (show_Z z) = true.
+Proof. apply show_Z_all. intros c H. apply (idchar_facts c H). Qed.
+
+Lemma strip_show_Z z : strip (show_Z z) = show_Z z.
+Proof. apply strip_by_none. apply show_Z_all. intros c H. apply (idchar_facts c H). Qed.
+
+Lemma py_int_show_Z z : py_int_Z (show_Z z) = Ok z.
+Proof. unfold py_int_Z. now rewrite strip_show_Z, read_show_Z. Qed.
 
 Lemma is_hash_line_cons c r : is_hash_line (c :: r) = N.eqb 35 c.
 Proof. unfold is_hash_line. change (lit "#") with [35%N]. cbn [startswith]. apply andb_true_r. Qed.
@@ -181,8 +199,8 @@ Qed.
 Lemma unlines_app a b : unlines (a ++ b) = unlines a ++ unlines b.
 Proof. unfold unlines. apply flat_map_app. Qed.
 
-Lemma pair_eq_dec (a b : N * N) : {a = b} + {a <> b}.
-Proof. decide equality; apply N.eq_dec. Qed.
+Lemma pair_eq_dec (a b : Z * Z) : {a = b} + {a <> b}.
+Proof. decide equality; apply Z.eq_dec. Qed.
 
 Lemma flat_map_ext_in' {A B} (f g : A -> list B) l :
   (forall a, In a l -> f a = g a) -> flat_map f l = flat_map g l.
@@ -208,8 +226,8 @@ Section WmdProofs.
     forallb (fun c => negb (is_space c)) (show_w w) = true.
 
   Notation winst := (winst W).
-  Notation wtab := (list ((N * N) * W)).
-  Notation good_e := (fun e : (N * N) * W => good_w (snd e)).
+  Notation wtab := (list ((Z * Z) * W)).
+  Notation good_e := (fun e : (Z * Z) * W => good_w (snd e)).
 
   Lemma show_w_no_sp w : good_w w -> forallb (fun c => negb (N.eqb c 32)) (show_w w) = true.
   Proof.
@@ -224,8 +242,8 @@ Section WmdProofs.
   Qed.
 
   (* the edge line without its newline *)
-  Definition eline (e : (N * N) * W) : text :=
-    show_N (fst (fst e)) ++ lit ", " ++ show_N (snd (fst e)) ++ lit ", " ++ show_w (snd e).
+  Definition eline (e : (Z * Z) * W) : text :=
+    show_Z (fst (fst e)) ++ lit ", " ++ show_Z (snd (fst e)) ++ lit ", " ++ show_w (snd e).
 
   Lemma edge_line_eline n m w : edge_line W show_w n m w = eline ((n, m), w) ++ nl.
   Proof. unfold edge_line, eline. simpl fst. simpl snd. now rewrite <- !app_assoc. Qed.
@@ -233,17 +251,17 @@ Section WmdProofs.
   Lemma strip_eline e : good_w (snd e) -> strip (eline e) = eline e.
   Proof.
     destruct e as [[n m] w]. intros (_ & Hne & _ & Hs). cbn [snd] in *. unfold eline. simpl fst. simpl snd. apply strip_by_of_fix.
-    - apply lstrip_by_app_fix; [apply show_N_nonempty|].
-      pose proof (strip_show_N n) as H. now apply strip_by_fix in H.
+    - apply lstrip_by_app_fix; [apply show_Z_nonempty|].
+      pose proof (strip_show_Z n) as H. now apply strip_by_fix in H.
     - rewrite !app_assoc. apply rstrip_by_app_fix; [exact Hne|].
       pose proof (strip_by_none is_space (show_w w) Hs) as H. now apply strip_by_fix in H.
   Qed.
 
   Lemma remove_sp_eline e : good_w (snd e) ->
-    remove_sp (eline e) = show_N (fst (fst e)) ++ 44%N :: show_N (snd (fst e)) ++ 44%N :: show_w (snd e).
+    remove_sp (eline e) = show_Z (fst (fst e)) ++ 44%N :: show_Z (snd (fst e)) ++ 44%N :: show_w (snd e).
   Proof.
     intros Hg. unfold eline. rewrite !remove_sp_app.
-    rewrite !(remove_sp_id (show_N _)) by (apply show_N_all; intros c H; apply (digit_facts c H)).
+    rewrite !(remove_sp_id (show_Z _)) by (apply show_Z_all; intros c H; apply (idchar_facts c H)).
     rewrite (remove_sp_id (show_w _)) by now apply show_w_no_sp. reflexivity.
   Qed.
 
@@ -253,26 +271,26 @@ Section WmdProofs.
     intros Ht Hg. pose proof Hg as (Hrs & _ & Hc & _).
     unfold parse_edge_line. rewrite strip_nl_r by exact Ht.
     rewrite strip_eline by exact Hg. rewrite remove_sp_eline by exact Hg.
-    rewrite split_on_app_sep by (apply show_N_all; intros c H; apply (digit_facts c H)).
-    rewrite split_on_app_sep by (apply show_N_all; intros c H; apply (digit_facts c H)).
+    rewrite split_on_app_sep by (apply show_Z_all; intros c H; apply (idchar_facts c H)).
+    rewrite split_on_app_sep by (apply show_Z_all; intros c H; apply (idchar_facts c H)).
     rewrite split_on_nosep by exact Hc.
-    rewrite !py_int_show_N. simpl rbind. rewrite Hrs. now destruct e as [[n m] w].
+    rewrite !py_int_show_Z. simpl rbind. rewrite Hrs. now destruct e as [[n m] w].
   Qed.
 
   Lemma eline_no_break e : good_w (snd e) -> no_break (eline e) = true.
   Proof.
-    intros Hg. unfold eline, no_break. rewrite !forallb_app. fold (no_break (show_N (fst (fst e)))).
-    fold (no_break (show_N (snd (fst e)))). fold (no_break (show_w (snd e))).
-    rewrite !show_N_no_break, show_w_no_break by exact Hg. reflexivity.
+    intros Hg. unfold eline, no_break. rewrite !forallb_app. fold (no_break (show_Z (fst (fst e)))).
+    fold (no_break (show_Z (snd (fst e)))). fold (no_break (show_w (snd e))).
+    rewrite !show_Z_no_break, show_w_no_break by exact Hg. reflexivity.
   Qed.
 
   (* an edge line is not a header line *)
   Lemma eline_not_hash e : good_w (snd e) -> is_hash_line (strip (eline e ++ nl)) = false.
   Proof.
     intros Hg. rewrite strip_nl_r by reflexivity. rewrite strip_eline by exact Hg. unfold eline.
-    pose proof (show_N_nonempty (fst (fst e))) as Hne. pose proof (show_N_digits (fst (fst e))) as Hd.
-    destruct (show_N (fst (fst e))) as [|c r]; [contradiction|]. simpl in Hd.
-    apply andb_true_iff in Hd as [Hc _]. destruct (digit_facts c Hc) as (_ & _ & _ & _ & H35).
+    pose proof (show_Z_nonempty (fst (fst e))) as Hne. pose proof (show_Z_idchars (fst (fst e))) as Hd.
+    destruct (show_Z (fst (fst e))) as [|c r]; [contradiction|]. simpl in Hd.
+    apply andb_true_iff in Hd as [Hc _]. destruct (idchar_facts c Hc) as (_ & _ & _ & _ & H35).
     cbn [app]. rewrite is_hash_line_cons. apply negb_true_iff in H35. now rewrite N.eqb_sym.
   Qed.
 
